@@ -5,7 +5,10 @@ mod rec;
 mod s_bloom;
 mod s_cms;
 mod s_filter;
+mod s_heap;
 mod s_hll;
+mod s_lossy;
+mod s_res;
 
 use rec::{RecBuild, ScriptRng};
 use std::collections::HashMap;
@@ -67,6 +70,9 @@ fn make_driver(st: &str, cfg: &HashMap<String, String>) -> Box<dyn Driver> {
         "hll" => Box::new(s_hll::D::default()),
         "cuckoo" => Box::new(s_filter::D::<s_filter::Cuckoo>::default()),
         "qf" => Box::new(s_filter::D::<s_filter::Quot>::default()),
+        "res" => Box::new(s_res::D::default()),
+        "lossy" => Box::new(s_lossy::D::default()),
+        "heap" => Box::new(s_heap::D::default()),
         _ => panic!("unknown structure {}", st),
     }
 }
